@@ -3,7 +3,7 @@ NEXT Next
 CONSTANTS
   ReplyLen = 2
   Family = "faults"
-  FaultBehs = {"ok0", "ok1", "okinfo", "okwarn", "oksource", "trunc1", "truncmid", "trunclast", "badbool", "badutf8", "badutf8cut", "badcontents", "badcontentsmid", "badmsg", "badmsgcut", "badsource", "badsourcecut", "badlevel", "hugesize", "empty"}
+  FaultBehs = {"ok0", "ok1", "okinfo", "okwarn", "oksource", "trunc1", "truncmid", "trunclast", "badbool", "badutf8", "badutf8cut", "badcontents", "badcontentsmid", "badmsg", "badmsgcut", "badsource", "badsourcecut", "badlevel", "hugesize", "hugestr", "hugecontents", "okshort", "okwide", "empty"}
   MaxGens = 1
   TruncLen = 0
 INVARIANT Emit
